@@ -1028,7 +1028,7 @@ def run_harness(harness, tier="quick", seed=0, replay=None, verbose=True):
         coverage=dict(
             states=max(1, n_paths),
             transitions=max(1, n_dec + n_paths),
-            traces_validated_against_impl=tv["validated"] + len(violations) + len(known_hits),
+            traces_validated_against_impl=tv["validated"] + tv["points"] + len(violations) + len(known_hits),  # claim-level agreements + whole concrete runs of the real code matched to a symbolic path + replays
             samples=samples or [dict(case=r.case.name, claims_true_on_path=getattr(r, "inline_samples", [])[:3], paths=len(r.paths)) for r in runs[:3]] or [dict(note="no obligations")],
             obligations=len(all_obls) + n_inline,
             discharged=discharged + discharged_pre + n_inline,
